@@ -265,22 +265,50 @@ func samePub(a, b any) bool {
 	return a == b
 }
 
+// verifyWith presents the object to VerifySTHSignature / VerifySCTSignature of sv.
+func (o *objState) verifyWith(kind string, sv *ct.SignatureVerifier) (got error, pan any) {
+	ds := tls.DigitallySigned{Algorithm: tls.SignatureAndHashAlgorithm{Hash: tls.HashAlgorithm(o.p.hash), Signature: tls.SignatureAlgorithm(o.p.sig)}, Signature: o.p.val}
+	defer func() { pan = recover() }()
+	if kind == "sth" {
+		got = sv.VerifySTHSignature(ct.SignedTreeHead{Version: ct.Version(o.version), TreeSize: o.treeSize, Timestamp: o.ts, SHA256RootHash: o.root,
+			TreeHeadSignature: ct.DigitallySigned(ds), LogID: o.sthLogID})
+		return
+	}
+	cert := ct.ASN1Cert{Data: o.cert}
+	entry := ct.LogEntry{Index: o.index, Leaf: ct.MerkleTreeLeaf{Version: ct.V1, LeafType: ct.TimestampedEntryLeafType,
+		TimestampedEntry: &ct.TimestampedEntry{Timestamp: o.leafTS, EntryType: ct.LogEntryType(o.etype), X509Entry: &cert,
+			PrecertEntry: &ct.PreCert{IssuerKeyHash: o.ikh, TBSCertificate: o.tbs}, Extensions: o.leafExt}}}
+	got = sv.VerifySCTSignature(ct.SignedCertificateTimestamp{SCTVersion: ct.Version(o.version), LogID: ct.LogID{KeyID: o.logID}, Timestamp: o.ts,
+		Extensions: o.ext, Signature: ct.DigitallySigned(ds)}, entry)
+	return
+}
+
+// newObjState builds the object of c as issued (signed over the reference input, nothing mutated yet).
+func newObjState(c ObjCase) (*objState, []byte, error) {
+	k := keys.Get(c.Key)
+	o := &objState{ts: c.Timestamp, ext: c.Ext, etype: c.EntryType, cert: c.Cert, ikh: to32(c.IKH), tbs: c.TBS, logID: to32(c.LogID), sthLogID: to32(c.LogID),
+		leafTS: c.Timestamp, leafExt: c.Ext, treeSize: c.TreeSize, root: to32(c.Root)}
+	orig, err := o.refInput(c.Kind)
+	if err != nil {
+		return nil, nil, err
+	}
+	o.p = presented{pub: k.Pub, key: k, keyName: k.Name, hash: c.Hash, sig: nativeSig(k), msg: orig, val: signStd(k, c.Hash, orig)}
+	if o.p.sig == sigAnon {
+		o.p.sig = sigECDSA
+	}
+	return o, orig, nil
+}
+
 func checkObj(t *testing.T, c ObjCase) (v harness.Verdict) {
 	cryptotest.SetGlobalRandom(t, c.Seed)
 	ct.AllowVerificationWithNonCompliantKeys = c.OptIn
 	defer func() { ct.AllowVerificationWithNonCompliantKeys = false }()
 
 	k := keys.Get(c.Key)
-	o := &objState{ts: c.Timestamp, ext: c.Ext, etype: c.EntryType, cert: c.Cert, ikh: to32(c.IKH), tbs: c.TBS, logID: to32(c.LogID), sthLogID: to32(c.LogID),
-		leafTS: c.Timestamp, leafExt: c.Ext, treeSize: c.TreeSize, root: to32(c.Root)}
-	orig, err := o.refInput(c.Kind)
+	o, orig, err := newObjState(c)
 	if err != nil {
 		v.Failf("harness-selfcheck", "generated object has no signed input: %v", err)
 		return v
-	}
-	o.p = presented{pub: k.Pub, key: k, keyName: k.Name, hash: c.Hash, sig: nativeSig(k), msg: orig, val: signStd(k, c.Hash, orig)}
-	if o.p.sig == sigAnon {
-		o.p.sig = sigECDSA
 	}
 	v.Class("obj:"+c.Kind, "key:"+k.Kind)
 	for _, m := range c.Muts {
@@ -309,23 +337,7 @@ func checkObj(t *testing.T, c ObjCase) (v harness.Verdict) {
 	}
 
 	sv := verifierFor(&v, o.p.pub, o.p.keyName, c.OptIn)
-	ds := tls.DigitallySigned{Algorithm: tls.SignatureAndHashAlgorithm{Hash: tls.HashAlgorithm(o.p.hash), Signature: tls.SignatureAlgorithm(o.p.sig)}, Signature: o.p.val}
-	var got error
-	var pan any
-	func() {
-		defer func() { pan = recover() }()
-		if c.Kind == "sth" {
-			got = sv.VerifySTHSignature(ct.SignedTreeHead{Version: ct.Version(o.version), TreeSize: o.treeSize, Timestamp: o.ts, SHA256RootHash: o.root,
-				TreeHeadSignature: ct.DigitallySigned(ds), LogID: o.sthLogID})
-			return
-		}
-		cert := ct.ASN1Cert{Data: o.cert}
-		entry := ct.LogEntry{Index: o.index, Leaf: ct.MerkleTreeLeaf{Version: ct.V1, LeafType: ct.TimestampedEntryLeafType,
-			TimestampedEntry: &ct.TimestampedEntry{Timestamp: o.leafTS, EntryType: ct.LogEntryType(o.etype), X509Entry: &cert,
-				PrecertEntry: &ct.PreCert{IssuerKeyHash: o.ikh, TBSCertificate: o.tbs}, Extensions: o.leafExt}}}
-		got = sv.VerifySCTSignature(ct.SignedCertificateTimestamp{SCTVersion: ct.Version(o.version), LogID: ct.LogID{KeyID: o.logID}, Timestamp: o.ts,
-			Extensions: o.ext, Signature: ct.DigitallySigned(ds)}, entry)
-	}()
+	got, pan := o.verifyWith(c.Kind, sv)
 	where := "VerifySCTSignature"
 	if c.Kind == "sth" {
 		where = "VerifySTHSignature"
